@@ -55,6 +55,7 @@ type svec struct {
 	Res       string    `json:"res"`
 	Idx       int       `json:"idx"`
 	Kinds     []kindAdm `json:"kinds"`
+	Extend    int       `json:"extend"` // how often the read deadline may be moved later after the request was written
 	// set by the harness in replay files: run only this path
 	Path string `json:"path,omitempty"`
 }
@@ -710,6 +711,29 @@ func (r *runner) idFake(v *svec, i int, realDeadline bool) {
 		via += "+deadline"
 	}
 	r.judgeID(v, via, q, m, err)
+	// One deadline per exchange: the fake recorded every read deadline it was given.  Compare the instants asked for
+	// (no clock is read here): once the request is written the deadline in force must not move later.
+	var recs []memnet.DeadlineRec
+	switch x := co.Conn.(type) {
+	case *memnet.Conn:
+		recs = x.ReadDeadlines()
+	case *memnet.DgramConn:
+		recs = x.ReadDeadlines()
+	}
+	var inForce time.Time // zero: none
+	later := 0
+	for _, d := range recs {
+		if d.Writes > 0 && !inForce.IsZero() && (d.T.IsZero() || d.T.After(inForce)) {
+			later++
+		}
+		inForce = d.T
+	}
+	if later > v.Extend {
+		c := *v
+		c.Path = via
+		r.sum.Mis("idmatch/"+v.Transport+"/deadline-moved-later", fmt.Sprintf("[%s] inbox %v, %d before the deadline: after the request was written the read deadline was moved later %d time(s) (%d deadlines set); every skipped reply buys more time",
+			via, v.Inbox, v.DL, later, len(recs)), &c)
+	}
 }
 
 func readFrame(c net.Conn) ([]byte, error) {
@@ -1043,6 +1067,8 @@ type xEvent struct {
 	Req2  *reqFields `json:"req2,omitempty"` // handle: after k later packets were received
 	Same  bool       `json:"same"`           // handle: Pack() on entry == Pack() later
 	Later int        `json:"later"`          // handle: packets received while waiting
+	Dst   int        `json:"dst"`            // send: which server address the request goes to (1 = 127.0.0.1, 2 = 127.0.0.2, ...; 0 = n/a)
+	Src   int        `json:"src"`            // crecv: which server address the reply came from (99 = none of them)
 	Wire  hx.B       `json:"wire,omitempty"` // send: the octets written; handle: Pack() of the request on entry
 	Len   int        `json:"len"`            // recv: number of octets the server's reader returned
 	Buf   int        `json:"buf"`            // get, put, recv: receive buffer (small number per backing array; 0 = not pooled)
@@ -1225,10 +1251,7 @@ func (b *bufIDs) of(p uintptr) int {
 // a message came off the wire into m: log which buffer holds it, whose address it came from and which
 // exchange its ID field names (raw octets, before any decoding)
 func (h *exHandler) recv(m []byte, from net.Addr, pooled bool) {
-	e := xEvent{Ev: "recv", Tr: h.tr, C: -1, Inst: -1, Len: len(m)}
-	if v, ok := h.addrs.Load(from.String()); ok {
-		e.C = v.(int)
-	}
+	e := xEvent{Ev: "recv", Tr: h.tr, C: h.clientOf(from), Inst: -1, Len: len(m)}
 	if len(m) >= 2 {
 		e.Inst = (int(m[0])<<8 | int(m[1])) - 1000
 	}
@@ -1251,6 +1274,22 @@ type exHandler struct {
 	capped   bool // real sockets: a wait may be ended by the clock (loss), never an assertion
 	addrs    sync.Map
 	bufs     bufIDs
+}
+
+// which client an address belongs to; on the wildcard-socket transport only the port identifies it
+func (h *exHandler) clientOf(a net.Addr) int {
+	if h.tr == "udpmulti" {
+		if u, ok := a.(*net.UDPAddr); ok {
+			if v, ok := h.addrs.Load(u.Port); ok {
+				return v.(int)
+			}
+		}
+		return -1
+	}
+	if v, ok := h.addrs.Load(a.String()); ok {
+		return v.(int)
+	}
+	return -1
 }
 
 func (h *exHandler) bump() {
@@ -1299,15 +1338,64 @@ func (h *exHandler) ServeDNS(w dns.ResponseWriter, m *dns.Msg) {
 	later := h.barrier()
 	p2, e2 := m.Pack()
 	f2 := fieldsOf(m)
-	c := -1
-	if v, ok := h.addrs.Load(w.RemoteAddr().String()); ok {
-		c = v.(int)
-	}
+	c := h.clientOf(w.RemoteAddr())
 	h.log.emit(xEvent{Ev: "handle", Tr: h.tr, C: c, Req1: f1, Req2: f2, Same: e1 == nil && e2 == nil && bytes.Equal(p1, p2), Later: later, Wire: hx.FromBytes(p1)})
 	r := new(dns.Msg)
 	r.SetReply(m)
 	r.Extra = []dns.RR{&dns.TXT{Hdr: dns.RR_Header{Name: "tok.", Rrtype: dns.TypeTXT, Class: dns.ClassINET, Ttl: 1}, Txt: []string{hex.EncodeToString(replyTok(f2.Tok.Bytes()))}}}
 	w.WriteMsg(r)
+}
+
+// A client of the wildcard-socket server: an unconnected socket, so that a reply is seen whatever address it comes
+// from; every exchange goes to another of the server's local addresses.
+func multiClient(h *exHandler, lg *logger, c, R, port int, locals []net.IP, lost, answered *atomic.Int64, begin chan struct{}) {
+	sock, err := net.ListenUDP("udp4", &net.UDPAddr{IP: net.IPv4zero})
+	if err != nil {
+		hx.Die("client socket: %v", err)
+	}
+	defer sock.Close()
+	h.addrs.Store(sock.LocalAddr().(*net.UDPAddr).Port, c)
+	<-begin
+	buf := make([]byte, 4096)
+	for round := 0; round < R; round++ {
+		req := mkRequest(c, round)
+		wire, err := req.Pack()
+		if err != nil {
+			hx.Die("pack: %v", err)
+		}
+		di := (c + round) % len(locals)
+		dst := &net.UDPAddr{IP: locals[di], Port: port}
+		ok := false
+		for try := 0; try < 4 && !ok; try++ {
+			lg.emit(xEvent{Ev: "send", Tr: h.tr, C: c, Round: round, Try: try, Req: fieldsOf(req), Wire: hx.FromBytes(wire), Dst: di + 1})
+			if _, err := sock.WriteToUDP(wire, dst); err != nil {
+				hx.Die("send to %v: %v", dst, err)
+			}
+			sock.SetReadDeadline(time.Now().Add(time.Second))
+			for {
+				n, from, err := sock.ReadFromUDP(buf)
+				if err != nil {
+					lg.emit(xEvent{Ev: "lost", Tr: h.tr, C: c, Round: round, Try: try})
+					lost.Add(1)
+					break
+				}
+				rep := new(dns.Msg)
+				if rep.Unpack(buf[:n]) != nil || rep.Id != req.Id {
+					continue // a late answer to an earlier attempt
+				}
+				src := 99
+				for k, ip := range locals {
+					if ip.Equal(from.IP) {
+						src = k + 1
+					}
+				}
+				ok = true
+				answered.Add(1)
+				lg.emit(xEvent{Ev: "crecv", Tr: h.tr, C: c, Round: round, Try: try, Req: fieldsOf(rep), Src: src})
+				break
+			}
+		}
+	}
 }
 
 func record(tr, out string, N, R int) {
@@ -1337,6 +1425,8 @@ func record(tr, out string, N, R int) {
 	var pc *memnet.PacketConn
 	var ml *memnet.Listener
 	var addr string
+	var mport int
+	locals := []net.IP{net.IPv4(127, 0, 0, 1), net.IPv4(127, 0, 0, 2), net.IPv4(127, 0, 0, 3)}
 	switch tr {
 	case "udp":
 		u, err := net.ListenUDP("udp", &net.UDPAddr{IP: net.IPv4(127, 0, 0, 1)})
@@ -1344,6 +1434,24 @@ func record(tr, out string, N, R int) {
 			hx.Die("listen udp: %v", err)
 		}
 		srv.PacketConn, addr, h.capped = u, u.LocalAddr().String(), true
+	case "udpmulti":
+		// one wildcard socket, several local addresses (all of 127/8 is local on Linux)
+		for _, ip := range locals[1:] {
+			t, err := net.ListenUDP("udp4", &net.UDPAddr{IP: ip})
+			if err != nil {
+				lg.w.Close()
+				var sum hx.Summary
+				sum.Note("exchange_udpmulti_skipped", err.Error())
+				sum.Print()
+				return
+			}
+			t.Close()
+		}
+		u, err := net.ListenUDP("udp4", &net.UDPAddr{IP: net.IPv4zero})
+		if err != nil {
+			hx.Die("listen udp: %v", err)
+		}
+		srv.PacketConn, mport, h.capped = u, u.LocalAddr().(*net.UDPAddr).Port, true
 	case "pc":
 		pc = memnet.NewPacketConn()
 		srv.PacketConn = pc
@@ -1379,6 +1487,9 @@ func record(tr, out string, N, R int) {
 			// and is never a verdict by itself; what went wrong is in the server-side events.
 			cl := &dns.Client{Timeout: 10 * time.Second}
 			switch tr {
+			case "udpmulti":
+				multiClient(h, lg, c, R, mport, locals, &lost, &answered, begin)
+				return
 			case "udp":
 				conn, err = net.Dial("udp", addr)
 				cl.Timeout = time.Second
@@ -1437,7 +1548,7 @@ func record(tr, out string, N, R int) {
 
 func main() {
 	if len(os.Args) < 3 {
-		hx.Die("usage: exchange replay <vectors> | record <udp|pc|tcp|tcpreal> <out> <N> <R>")
+		hx.Die("usage: exchange replay <vectors> | record <udp|udpmulti|pc|tcp|tcpreal> <out> <N> <R>")
 	}
 	switch os.Args[1] {
 	case "replay":
